@@ -1281,6 +1281,9 @@ fn exhaustive_case(ops: &mut Vec<String>, ex: &mut Exec, prefix: &[&str], seq: &
     c.now += 10;
     let t = c.now;
     c.op(format!("dp.tx {t} 0"));
+    // collect after every callback, also after this one: otherwise the oracles treat the whole case as
+    // "events may have been overwritten" and only resynchronise (found with seed C14-m6)
+    c.take();
     for s in prefix {
         drive_sym(&mut c, s, false);
     }
